@@ -1,0 +1,28 @@
+package godi
+
+import "runtime"
+
+// goroutineID returns the number the runtime gives the calling goroutine. It is
+// used for one thing only: Close recognises a call that is made, further up the
+// same stack, by the very disposal it would otherwise wait for (a Close method
+// of an instance that closes its own scope or the provider).
+func goroutineID() int64 {
+	var buf [64]byte
+	n := runtime.Stack(buf[:], false)
+
+	// "goroutine 123 [running]:"
+	const prefix = "goroutine "
+	if n <= len(prefix) {
+		return -1
+	}
+
+	var id int64
+	for _, c := range buf[len(prefix):n] {
+		if c < '0' || c > '9' {
+			break
+		}
+		id = id*10 + int64(c-'0')
+	}
+
+	return id
+}
